@@ -157,7 +157,7 @@ func c16r1(c *core.Ctx) {
 					if bp, isPair := bufferPairs[recvType]; isPair && len(c.Eff.StoresAt(g, x)) > 0 {
 						for _, arg := range x.Args {
 							for _, e := range exprChain(m, g, arg, 0) {
-								ast.Inspect(e, func(y ast.Node) bool {
+								ast.Inspect(m.Inline(e), func(y ast.Node) bool {
 									if sel, ok := y.(*ast.SelectorExpr); ok && fieldKeyOf(m, sel) == recvType+"."+bp[1] {
 										mark(recvType + "." + bp[0])
 									}
@@ -270,28 +270,7 @@ func c16r1(c *core.Ctx) {
 		// nothing-to-reset test (an emptiness test of an own length/index/count, or an immutable boolean property of
 		// the receiver such as "has no relations"). Formulated on paths, so early returns, else-branches and
 		// alternative strategies in separate branches are all treated alike.
-		exemptExit := map[*ast.ReturnStmt]bool{}
-		core.InspectNoLits(ri.f.Body, func(n ast.Node) bool {
-			r, ok := n.(*ast.ReturnStmt)
-			if !ok {
-				return true
-			}
-			spec := core.GuardSpec{
-				Only:      ri.f,
-				GuardAtom: func(ff *core.Func, at core.Atom) bool { return nothingToResetAtom(m, ri.f, at) },
-				Needs: func(ff *core.Func, x ast.Node) []core.Witness {
-					if x == ast.Node(r) {
-						return []core.Witness{{What: "return"}}
-					}
-					return nil
-				},
-				SkipCallee: func(*core.Func) bool { return true },
-			}
-			if len(m.MustPrecede(spec).Unguarded[ri.f]) == 0 {
-				exemptExit[r] = true
-			}
-			return true
-		})
+		exemptExit := func(at core.Atom) bool { return nothingToResetAtom(m, ri.f, at) }
 		for _, miss := range keysNotOnAllPaths(c, ri.f, ri.nodes, exemptExit, func(k string) {
 			c.OK("C16/R1", ri.f.Name+": "+k+" on all paths", c.At(ri.f.Pos()), "reset on every normal path (exits under a nothing-to-reset test excepted)")
 		}) {
@@ -308,7 +287,7 @@ func c16r1(c *core.Ctx) {
 // is reached (zero iterations mean there is nothing to handle) and returns listed in exempt are ignored. Buffer and
 // derived pointer of a buffer pair are one obligation. Returns the keys that are handled on some paths only; ok is
 // called for the others.
-func keysNotOnAllPaths(c *core.Ctx, f *core.Func, nodes map[string][]ast.Node, exempt map[*ast.ReturnStmt]bool, ok func(string)) []string {
+func keysNotOnAllPaths(c *core.Ctx, f *core.Func, nodes map[string][]ast.Node, exempt func(core.Atom) bool, ok func(string)) []string {
 	m := c.M
 	var bad []string
 	var keys []string
@@ -366,7 +345,7 @@ func keysNotOnAllPaths(c *core.Ctx, f *core.Func, nodes map[string][]ast.Node, e
 			}
 			return false
 		}
-		if passedOnAllPathsExcept(m, f, passes, exempt) {
+		if passedOrGuardedOnAllPaths(m, f, passes, exempt) {
 			if ok != nil {
 				ok(k)
 			}
